@@ -365,8 +365,9 @@ def spec_check(case, o):
         if t[2] not in ("0", "-1"):
             bad.append(("parse-return:%s" % case[2:3], "sscanf returned neither 0 nor -1: " + o[-1]))
         elif t[-1] != "1":
-            bad.append(("sscanf-unwritten-words:%s" % case[2:3],
-                        "the accepted value depends on what the bitmap held before (parsed into 0xa5a5.. and 0x5a5a.. backgrounds): " + o[-1]))
+            bad.append(("parse-depends-on-destination:%s" % case[2:3],
+                        "the result of the parse depends on what the destination bitmap held before (reused destinations: other word pattern, "
+                        "empty, full, {4-7,128-}, 20-word finite, 20-word infinite, the result itself): " + o[-1]))
         elif t[-2] != "1":
             bad.append(("parse-unstable:%s" % case[2:3], "accepted string is not stable under print-then-parse (or the set is not zeroed on failure): " + o[-1]))
     return bad
